@@ -332,4 +332,156 @@ for n in order:
     out.append("theorem %s_adq (n : Nat) : %s := (adqF_all d n).%s" % (n, field(n, ("n", "n")), n))
 out += ["", "end PM"]
 open(os.path.join(LEAN, "MsqProofs/Lemmas/ParseAdq.lean"), "w", encoding="utf-8").write("\n".join(out) + "\n")
+
+# ------------------------------------------------------------------------------------------------ statement level, entry points
+stmt_defs = [d for d in parse_defs(rd("MsqModel/Parse/Stmt.lean")) if (typed(d) or d.alias) and d.name not in HAND_NOFUEL]
+entry_src = rd("MsqModel/Parse/Entry.lean")
+entry_defs = [d for d in parse_defs(entry_src) if typed(d) and d.name in ("pStatements", "pSubValue")]
+STMT_LOOPS = {"defColLoop", "valuesLoop", "createOpts", "alterLoop", "updateSetLoop", "statementsLoop"}   # counter first, cursor last
+STRICT_STMT = ["pInsertType", "pSet", "pDelete", "pDropTable", "pCreateTable", "pAnalyze", "pAlter", "pMsck", "pTruncate", "pUse",
+               "pShowColumns", "pInsert", "pUpdate", "pStatement"]
+fueled = set()      # functions of the statement level that pass a fuel on: lemma X_adq under `BOUND + weight ≤ f`
+
+
+def has_fuel(d): return ("f", "Nat") in explicit(d)
+
+
+def lemma_name(c):
+    if c in funcs or c in fueled: return "%s_adq" % c
+    return "%s_nofuel" % c
+
+
+def each_closed_haves(body):
+    out = []
+    for k, m in enumerate(re.finditer(r"eachClosed\s+(\((?:[^()]|\([^()]*\))*\)|\w+)", body)):
+        arg = m.group(1)
+        inner = arg[1:-1].split() if arg.startswith("(") else [arg]
+        p = inner[0]
+        if p in funcs: out.append("  have hE%d := eachClosed_adq %s %d f (%s_adq d f)" % (k, arg, rank[p], p))
+        elif p in fueled: out.append("  have hE%d := eachClosed_adq %s %d f (%s_adq d f)" % (k, arg, BOUND, p))
+        else: out.append("  have hE%d := eachClosed_nofuel %s %s_nofuel" % (k, arg, p))
+    return out
+
+
+out = ["import MsqProofs.Lemmas.ParseAdq", HEADER % "the statement level (MsqModel/Parse/Stmt.lean) and the entry points (MsqModel/Parse/Entry.lean)"] + OPTS
+out.append("/-! ### strict consumption of the statements (for the loop of `parse_statements`) and of `GENERATED ALWAYS AS` (for the attribute loop) -/")
+out += ["theorem pGenerated_some (d : Gen.D) (f : Nat) (ts : List Tok) (gc : GenCol) (r : List Tok) (h : pGenerated d f ts = .ok (some gc, r)) : Lost r ts := by",
+        "  have hC := consF_all d f", "  unfold pGenerated at h", "  split_run <;> " + GRIND % "Lost",
+        "grind_pattern pGenerated_some => pGenerated d f ts, (some gc, r)", ""]
+sdefs = dict((d.name, d) for d in stmt_defs)
+strict_done = []
+for nme in STRICT_STMT:
+    d = sdefs[nme]
+    if d.alias is not None:
+        tgt = d.alias.split()[0]
+        # `pMsck := pKwTable [...] .msck`: strict because its word list is not empty
+        out += ["theorem %s_strict : ∀ ts, StrictRel ts (%s ts) := by" % (nme, nme), "  intro ts v r h", "  unfold %s %s at h" % (nme, tgt),
+                "  split_run <;> " + GRIND % "Lost", ""]
+    else:
+        en = [n for n, _ in explicit(d)]
+        lem = ["Lost"] + ["%s_strict" % c for c in strict_done if uses(c, d.body)]
+        out += ["theorem %s_strict %s : StrictRel ts (%s) := by" % (nme, binder_txt(d), " ".join([nme] + en)),
+                "  intro v r h"] + (["  have hC := consF_all d f"] if has_fuel(d) else []) + \
+               ["  unfold %s at h" % nme, "  split_run <;> " + GRIND % ", ".join(lem), ""]
+    strict_done.append(nme)
+
+out.append("/-! ### never `.fuel` -/")
+for d in stmt_defs + entry_defs:
+    a = len(d.arrows)
+    en = [n for n, _ in explicit(d)]
+    callees = [c for c in known + list(funcs) + sorted(fueled) if c != d.name and uses(c, d.body)]
+    lem = ["adqWL_append", "closed_nofuel"] + [lemma_name(c) for c in callees] + ["%s_strict" % c for c in strict_done if uses(c, d.body)] + \
+          []
+    close = "split_run <;> " + GRIND % ", ".join(lem)
+    app = " ".join([d.name] + en + ([xs(a)] if a else []))
+    if not has_fuel(d):
+        if d.alias is not None:
+            tgt = d.alias.split()[0]
+            out += ["theorem %s_nofuel : ∀ ts, %s ts ≠ %s := by" % (d.name, d.name, FUEL), "  intro ts; unfold %s; exact %s_nofuel _ _ ts" % (d.name, tgt), ""]
+        elif d.name in LOOPS:
+            out += ["theorem %s_nofuel %s : ∀ %s, x%d.length < x0 → %s ≠ %s := by" % (d.name, binder_txt(d), xs(a), a - 1, app, FUEL),
+                    "  intro x0", "  induction x0 <;> intro %s hlen h <;> unfold %s at h <;> %s" % (xs(a)[3:].strip(), d.name, close), ""]
+        else:
+            q = ("∀ %s, " % xs(a)) if a else ""
+            out += ["theorem %s_nofuel %s : %s%s ≠ %s := by" % (d.name, binder_txt(d), q, app, FUEL),
+                    "  intro %s h" % xs(a) if a else "  intro h"] + each_closed_haves(d.body) + ["  unfold %s at h" % d.name, "  " + close, ""]
+        known.append(d.name)
+        continue
+    # passes the fuel on
+    pre_h = ["  have hC := consF_all d f"] + each_closed_haves(d.body)
+    if d.name in STMT_LOOPS:
+        cur = "x%d" % (a - 1)
+        out += ["theorem %s_adq %s : ∀ %s, %s.length < x0 → %d + adqWL %s ≤ f → %s ≠ %s := by" % (d.name, binder_txt(d), xs(a), cur, BOUND, cur, app, FUEL)] + pre_h + \
+               ["  intro x0", "  induction x0 <;> intro %s hlen hle h <;> unfold %s at h <;> %s" % (xs(a)[3:].strip(), d.name, close), ""]
+    elif d.name == "createElems":
+        out += ["theorem %s_adq %s : ∀ %s, %d + adqWLL x0 ≤ f → %s ≠ %s := by" % (d.name, binder_txt(d), xs(a), BOUND, app, FUEL)] + pre_h + \
+               ["  intro x0", "  induction x0 <;> intro %s hle h <;> unfold %s at h <;> %s" % (xs(a)[3:].strip(), d.name, close), ""]
+    else:
+        assert a == 0 and "ts" in en, d.name
+        out += ["theorem %s_adq %s : %d + adqWL ts ≤ f → %s ≠ %s := by" % (d.name, binder_txt(d), BOUND, app, FUEL), "  intro hle h"] + pre_h + \
+               ["  unfold %s at h" % d.name, "  " + close, ""]
+    fueled.add(d.name)
+
+# ---- PM.entries
+m = re.search(r"def entries : List \(String × Entry\) := \[\n(.*?)\]\n", entry_src, re.S)
+ent = [re.match(r'\("(\w+)",\s*(.*)\),?$', l.strip()).groups() for l in m.group(1).split("\n") if l.strip()]
+
+
+def read_arg(s):
+    s = s.strip()
+    if s.startswith("("):
+        j = balanced(s, 0); return s[:j], s[j:]
+    mm = re.match(r"[\w.]+", s); return mm.group(0), s[mm.end():]
+
+
+def adq_term(name, extra):
+    ex = (" ".join(extra) + " ") if extra else ""
+    if name in funcs: return "(fun d f ts hle => %s_adq d f %sts (by omega))" % (name, ex)
+    if name in fueled: return "(fun d f ts hle => %s_adq d f %sts hle)" % (name, ex)
+    raise SystemExit("entry on " + name)
+
+
+def entry_proof(nme, expr):
+    mm = re.match(r"(exprEntry|stmtEntry|mapEntry)\s+(.*)$", expr)
+    if mm:
+        F, rest = read_arg(mm.group(2))
+        V = read_arg(rest)[0] if mm.group(1) == "mapEntry" else None
+        if F.startswith("(fun d f ts => match"):
+            prf = "singleSelect_adq"
+        elif F.startswith("("):
+            b = re.match(r"\(fun d f ts => (\w+) d f (.*) ts\)$", F); assert b, F
+            prf = adq_term(b.group(1), b.group(2).split())
+        else:
+            prf = adq_term(F, [])
+        return "exact %s_adq %s %s%s" % (mm.group(1), F, (V + " ") if V else "", prf)
+    lem = ["closed_nofuel"] + [lemma_name(c) for c in known + sorted(fueled) if uses(c, expr)]
+    return "intro d f ts hle h; (try dsimp only at h); split_run <;> " + GRIND % ", ".join(lem)
+
+
+WRAP = """/-! ### the entry points -/
+theorem exprEntry_adq (p : Gen.D → Nat → List Tok → R Expr) (hp : ∀ d f ts, BB + adqWL ts ≤ f → p d f ts ≠ .error .fuel) :
+    ∀ d f ts, BB + adqWL ts ≤ f → exprEntry p d f ts ≠ .error .fuel := by
+  intro d f ts hle h; have := hp d f ts hle; unfold exprEntry at h; split at h <;> simp_all
+theorem stmtEntry_adq (p : Gen.D → Nat → List Tok → R Stmt) (hp : ∀ d f ts, BB + adqWL ts ≤ f → p d f ts ≠ .error .fuel) :
+    ∀ d f ts, BB + adqWL ts ≤ f → stmtEntry p d f ts ≠ .error .fuel := by
+  intro d f ts hle h; have := hp d f ts hle; unfold stmtEntry at h; split at h <;> simp_all
+theorem mapEntry_adq {α : Type} (p : Gen.D → Nat → List Tok → R α) (v : α → Val) (hp : ∀ d f ts, BB + adqWL ts ≤ f → p d f ts ≠ .error .fuel) :
+    ∀ d f ts, BB + adqWL ts ≤ f → mapEntry p v d f ts ≠ .error .fuel := by
+  intro d f ts hle h; have := hp d f ts hle; unfold mapEntry at h; split at h <;> simp_all
+theorem singleSelect_adq : ∀ d f ts, BB + adqWL ts ≤ f →
+    (match pWith d f ts with | .ok (w, r) => pSingle d f w r | .error e => .error e) ≠ .error .fuel := by
+  intro d f ts hle h
+  have hC := consF_all d f
+  split_run <;> GG
+"""
+out += [WRAP.replace("BB", str(BOUND)).replace("GG", GRIND % "pWith_adq, pSingle_adq")]
+out.append("/-- every public entry point of the model, on every token list: `%d + weight of the token list` units of fuel are enough -/" % BOUND)
+out.append("theorem entries_adq : ∀ p ∈ entries, ∀ d f ts, %d + adqWL ts ≤ f → p.2 d f ts ≠ .error .fuel := by" % BOUND)
+out.append("  unfold entries")
+out.append("  simp only [List.forall_mem_cons]")
+out.append("  refine ⟨" + ", ".join("?_" for _ in ent) + ", by simp⟩")
+for nme, expr in ent:
+    out.append("  · " + entry_proof(nme, expr) + "   -- " + nme)
+out += ["", "end PM"]
+open(os.path.join(LEAN, "MsqProofs/Lemmas/ParseAdqStmt.lean"), "w", encoding="utf-8").write("\n".join(out) + "\n")
 print(len(order), "functions of the block, max rank", maxrank, "; helpers:", len(prim) + len(pre))
